@@ -259,6 +259,9 @@ func memGen(c *Ctx) {
 					continue // DMA has its own family (it makes OAM inaccessible for a while)
 				}
 				var ops []memOp
+				if a == 0xff05 {
+					ops = append(ops, memOp{"r", 0xff07, 0}) // TIMA keeps a written value only while the timer is known to be off
+				}
 				for _, v := range vals {
 					if a == 0xff44 && mode == "poweron" && v < 154 {
 						continue // with the LCD running only values LY can never take tell "stored" from "coincidence"
@@ -306,6 +309,18 @@ func memGen(c *Ctx) {
 			}
 			if len(ops) > 0 {
 				add("hotreg", mode, int64(rng.Intn(1<<30)), ops)
+			}
+			// the timer registers at every cycle around an overflow (the cycle TIMA reads 00, the reload cycle, after it)
+			ops = nil
+			// (TMA and TAC always keep what is written; a TIMA write in those cycles is C12's subject)
+			for _, a := range []int{0xff06, 0xff07} {
+				for t := 0; t <= 14; t++ {
+					for _, v := range []int{0x00, 0x07, 0xfa, rng.Intn(256)} {
+						ops = append(ops, memOp{"w", 0xff06, rng.Intn(256)}, memOp{"w", 0xff07, 0x05}, memOp{"w", 0xff05, 0xfe}, memOp{"tick", t, 0}, memOp{"w", a, v}, memOp{"r", a, 0})
+					}
+				}
+				add("hotreg", mode, int64(rng.Intn(1<<30)), ops)
+				ops = nil
 			}
 		}
 	}
